@@ -50,6 +50,9 @@ def universe_lines():
     return _u['l']
 
 
+PAIR_BREAKPOINT = 'wl_surface, wl_pointer, wl_registry.bind'
+
+
 class Pair:
     """Two sessions in lock step; the colour switch is a process global, so it is set
     before every step of either session."""
@@ -58,8 +61,9 @@ class Pair:
         from core.util import set_color_output
         self.set = set_color_output
         self.set(True)
-        self.on = sut.Session(color=True)
-        self.off = sut.Session(color=False)
+        # with a breakpoint from the start, so that `Stopped at` notices are among what is compared
+        self.on = sut.Session(color=True, stop=PAIR_BREAKPOINT)
+        self.off = sut.Session(color=False, stop=PAIR_BREAKPOINT)
         self.pos = 0
         self.input_esc = 0
         self.seen_lines = []
@@ -192,7 +196,14 @@ def eval_paste(case):
             set_color_output(case['colour'])
             sut.LOG.take()
             try:
-                out, err = s.cmd(prefix + variant)
+                if case.get('via') == 'prompt':
+                    # typed (pasted) at the interactive prompt of file / run mode, then `quit`
+                    from frontends.tui import TerminalUI
+                    typed = iter([prefix + variant])
+                    TerminalUI(s.ctl, s.ctl, lambda prompt: next(typed, 'quit')).run_until_stopped()
+                    out, err = s.take()
+                else:
+                    out, err = s.cmd(prefix + variant)
                 exc = None
             except Exception as e:
                 if sut.REPO not in traceback.format_exc():
@@ -217,6 +228,8 @@ def gen_paste(frags):
         for how in ('command', 'list', 'filter', 'matcher', 'connection', 'breakpoint'):
             for colour in (False, True):
                 yield {'text': f, 'as': how, 'colour': colour}
+            if how in ('command', 'list', 'connection'):
+                yield {'text': f, 'as': how, 'colour': True, 'via': 'prompt'}
 
 
 def gdb_flavour_child(tier):
